@@ -4,8 +4,8 @@ package acl
 // of principals x actions x resources x name patterns (exact, "p*", "*", empty, case
 // and whitespace variants, duplicate principal entries), every request of the
 // request alphabet asked of the REAL NewAuthorizer/Allows. The implementation-side
-// oracle checks the clauses of the statement directly on the configuration (using the
-// real rule matcher `matches` only to decide whether one rule matches one request):
+// oracle checks the clauses of the statement directly on the configuration (whether one rule
+// matches one request is decided by the harness's own reference matcher c23RefMatches):
 // deny-overrides, allow-then-default, unknown-default, and -- on an edited copy of the
 // configuration -- add-allow-monotone / add-deny-antitone. Every configuration and
 // the observed answers are emitted for the Coq correspondence check (corr/AclCorr.v).
@@ -43,15 +43,19 @@ type c23Case struct {
 }
 
 var (
+	// request alphabet = FULL product: every action x every resource kind acl.go defines (topic,
+	// group, cluster; case variant), an unknown and the empty resource x names that do / do not
+	// match each rule pattern, the empty name, "*", and "cluster" (the literal name the broker
+	// passes for cluster requests, cmd/broker allowCluster)
 	c23ReqPrincipals = []string{"alice", " alice ", "bob", "", "carol"}
-	c23ReqActions    = []string{"produce", "FETCH", "admin"}
-	c23ReqResources  = []string{"topic", "Group"}
-	c23ReqNames      = []string{"orders", "orders-eu", "ord", "", "*"}
+	c23ReqActions    = []string{"produce", "FETCH", "admin", "group_write"}
+	c23ReqResources  = []string{"topic", "Group", "cluster", "txn", ""}
+	c23ReqNames      = []string{"orders", "orders-eu", "ord", "", "*", "cluster", "staging"}
 
 	c23EntryNames   = []string{"alice", "alice", " alice", "alice\t", "bob", "anonymous", "", "  ", "Alice", "carol "}
 	c23RuleActions  = []string{"", "*", "produce", "Produce", "fetch", "admin", "group_read", " produce"}
-	c23RuleRes      = []string{"", "*", "topic", "TOPIC", "group", "cluster"}
-	c23RuleNames    = []string{"", "*", "orders", "orders*", "o*", " orders ", "ord**", "Orders", "**", "orders-eu", "ord", " * "}
+	c23RuleRes      = []string{"", "*", "topic", "TOPIC", "group", "cluster", "Cluster", "txn"}
+	c23RuleNames    = []string{"", "*", "orders", "orders*", "o*", " orders ", "ord**", "Orders", "**", "orders-eu", "ord", " * ", "cluster", "staging", "tmp-*", "c*", "orders-*"}
 	c23Defaults     = []string{"allow", "deny", "ALLOW", " Allow ", "", "bogus", "allow "}
 )
 
@@ -157,6 +161,26 @@ func c23HasDup(entries []c23Entry) bool {
 	return false
 }
 
+// c23RefMatches is the harness's OWN reading of "a rule matches a request" (the statement's
+// exact / prefix-wildcard / star patterns, "" and "*" as wildcards for action and resource,
+// case-insensitive action and resource words, the rule name trimmed): the oracle must not ask
+// the code under test whether a rule matches.
+func c23RefMatches(r c23Rule, q c23Req) bool {
+	word := func(rule, w string) bool { return rule == "" || rule == "*" || strings.EqualFold(rule, w) }
+	if !word(r.A, q.a) || !word(r.R, q.r) {
+		return false
+	}
+	n := strings.TrimSpace(r.N)
+	switch {
+	case n == "" || n == "*":
+		return true
+	case strings.HasSuffix(n, "*"):
+		return strings.HasPrefix(q.n, n[:len(n)-1])
+	default:
+		return n == q.n
+	}
+}
+
 // c23Expected evaluates the statement's clauses on the configuration itself.
 // clause: which clause decided.
 func c23Expected(c c23Case, entries []c23Entry, q c23Req) (bool, string) {
@@ -171,12 +195,12 @@ func c23Expected(c c23Case, entries []c23Entry, q c23Req) (bool, string) {
 		}
 		known = true
 		for _, r := range e.Deny {
-			if matches(Rule{Action: Action(r.A), Resource: Resource(r.R), Name: r.N}, Action(q.a), Resource(q.r), q.n) {
+			if c23RefMatches(r, q) {
 				denyHit = true
 			}
 		}
 		for _, r := range e.Allow {
-			if matches(Rule{Action: Action(r.A), Resource: Resource(r.R), Name: r.N}, Action(q.a), Resource(q.r), q.n) {
+			if c23RefMatches(r, q) {
 				allowHit = true
 			}
 		}
@@ -369,7 +393,7 @@ func c23Shrink(c c23Case, key string) c23Case {
 }
 
 func TestVerifC23(t *testing.T) {
-	rep := vNewReport("C23", "broker authorizer: generated acl.Config (0-4 principal entries incl. duplicates / whitespace variants / blank names, 0-3 allow and 0-2 deny rules each over actions x resources x name patterns exact, p*, *, empty, case and whitespace variants, double star; 7 default-policy spellings; ACL on/off) x ALL 150 requests of the request alphabet, plus one generated edit (add allow/deny rule or entry at any position) per case; non-trivial = at least two different clauses decide requests of the case and (if edited) the edit changes an answer or the config has a duplicate principal; distinct = distinct canonical JSON")
+	rep := vNewReport("C23", "broker authorizer: generated acl.Config (0-4 principal entries incl. duplicates / whitespace variants / blank names, 0-3 allow and 0-2 deny rules each over actions x resources x name patterns exact, p*, *, empty, case and whitespace variants, double star; 7 default-policy spellings; ACL on/off) x ALL 700 requests of the request alphabet (5 principals x 4 actions x 5 resources incl. cluster / unknown / empty x 7 names incl. 'cluster'), plus one generated edit (add allow/deny rule or entry at any position) per case; non-trivial = at least two different clauses decide requests of the case and (if edited) the edit changes an answer or the config has a duplicate principal; distinct = distinct canonical JSON")
 	var coq, jsons []string
 	runOne := func(c c23Case) {
 		c.Kind = "broker"
@@ -427,6 +451,10 @@ func TestVerifC23(t *testing.T) {
 			{Enabled: true, Default: "allow", Entries: []c23Entry{{Name: "alice", Deny: []c23Rule{all}}}, Add: &c23Add{Kind: "deny-entry", Pos: 1, Name: "alice", Rule: c23Rule{A: "fetch", R: "group", N: "zzz"}}},
 			{Enabled: true, Default: "deny", Entries: []c23Entry{{Name: "anonymous", Allow: []c23Rule{{A: "", R: "", N: "ord**"}}}, {Name: "", Allow: []c23Rule{all}}}},
 			{Enabled: false, Default: "deny", Entries: []c23Entry{{Name: "alice", Deny: []c23Rule{all}}}},
+			// cluster requests are scoped by the rule's name pattern like any other request
+			{Enabled: true, Default: "deny", Entries: []c23Entry{{Name: "alice", Allow: []c23Rule{{A: "*", R: "*", N: "orders-*"}}}}},
+			{Enabled: true, Default: "allow", Entries: []c23Entry{{Name: "alice", Deny: []c23Rule{{A: "", R: "", N: "tmp-*"}}}}},
+			{Enabled: true, Default: "deny", Entries: []c23Entry{{Name: "alice", Allow: []c23Rule{{A: "admin", R: "cluster", N: "staging"}}}, {Name: "bob", Allow: []c23Rule{{A: "admin", R: "cluster", N: "cluster"}}}}},
 		}
 		for _, c := range corpus {
 			runOne(c)
